@@ -92,6 +92,8 @@ def rand_value(rng, typ, nentries, arr_pool):
         return {"a": list(rng.choice(arr_pool))}
     if typ == "ref":
         return {"r": rng.randrange(0, nentries)}
+    if typ == "sref":
+        return {"rs": rng.randrange(0, nentries)}
     raise ValueError(typ)
 
 
@@ -118,7 +120,7 @@ def random_scn(rng, k, big=False, sorted_p=0.0, refs=False, types=("uint", "sint
     def mk_props(n):
         ps = []
         for _ in range(n):
-            t = rng.choice(types + (("ref",) if refs else ()))
+            t = rng.choice(types + (("ref", "sref") if refs else ()))
             p = {"name": next(names), "type": t}
             if t == "array":
                 p["prefix"] = rng.choice([0, 0, 1, 2, 3, 5, 16, 31])
@@ -138,7 +140,7 @@ def random_scn(rng, k, big=False, sorted_p=0.0, refs=False, types=("uint", "sint
     for p in allprops:
         if p["type"] == "array":
             pools[p["name"]] = arr_pool(rng, p["prefix"])
-        if p["type"] != "ref" and rng.random() < 0.3:
+        if p["type"] not in ("ref", "sref") and rng.random() < 0.3:
             const_cols[p["name"]] = rand_value(rng, p["type"], max(n, 1), pools.get(p["name"]))
     entries = []
     for j in range(n):
@@ -171,6 +173,8 @@ def random_scn(rng, k, big=False, sorted_p=0.0, refs=False, types=("uint", "sint
                 for nm, v in e["values"].items():
                     if "r" in v:
                         v["r"] = v["r"] % max(n, 1)
+                    if "rs" in v:
+                        v["rs"] = v["rs"] % max(n, 1)
     indexes = [{"name": "main", "offset": 0, "count": n, "free_data": [rng.randrange(256) for _ in range(rng.choice([0, 4]))],
                 "index_key": rng.choice([0, 0, 1, 7, 255])}]
     if n >= 1:
@@ -210,7 +214,7 @@ def directed_scns(tier):
             {"variant": "B", "values": {"n": {"u": 3}}}], variants=v2)
     # array length-width boundaries, prefix boundaries, both store kinds
     for kind in ("plain", "indexed"):
-        for pre in (0, 1, 31):
+        for pre in (0, 1, 2, 3, 31):
             for ln in ([255, 256, 65535, 65536] if tier == "thorough" else [255, 256]):
                 simple("arr_%s_%d_%d" % (kind, pre, ln), [{"name": "a", "type": "array", "prefix": pre, "store": 0}],
                        [{"values": {"a": {"a": [(i * 7 + j) % 256 for i in range(ln)]}}} for j in range(2)] + [{"values": {"a": {"a": []}}}],
@@ -219,6 +223,13 @@ def directed_scns(tier):
     for kind in ("plain", "indexed"):
         simple("ids_%s" % kind, [{"name": "a", "type": "array", "prefix": 0, "store": 0}],
                [{"values": {"a": {"a": [j % 256, j // 256, 7]}}} for j in range(300)], stores=(kind,))
+    # values that are strict prefixes of values stored earlier (and the empty value), added once the store holds more than
+    # 1024 distinct values (the indexed store then looks for duplicates in parallel): every value keeps its own length
+    for kind in ("plain", "indexed"):
+        for pre in (0, 2):
+            vals = [list(b"value-%05d-x" % j) for j in range(1100)] + [list(b"value-%05d" % j) for j in range(0, 1100, 37)] + [[], list(b"value-"), list(b"v")]
+            simple("prefixes_%s_%d" % (kind, pre), [{"name": "a", "type": "array", "prefix": pre, "store": 0}, {"name": "n", "type": "uint"}],
+                   [{"values": {"a": {"a": v}, "n": {"u": j}}} for j, v in enumerate(vals)], stores=(kind,))
     # many entries: entry count boundaries and the parallel paths
     simple("many", [{"name": "n", "type": "uint"}, {"name": "a", "type": "array", "prefix": 2, "store": 0}],
            [{"values": {"n": {"u": j * 1000003 % (1 << 40)}, "a": {"a": list(b"k%06d" % j)}}} for j in range(1200 if tier == "quick" else 70000)],
@@ -327,6 +338,8 @@ def annotate(s, run, want_dec=False):
         for n, v in e["values"].items():
             if "r" in v:
                 v = {"u": handles[v["r"]] if handles and v["r"] < len(handles) else 0}
+            elif "rs" in v:
+                v = {"s": handles[v["rs"]] if handles and v["rs"] < len(handles) else 0}
             vals[n] = enc(v)
         if len(s["entries"]) > 200:
             many.append({"variant": e.get("variant") or "", "values": vals})
